@@ -10,6 +10,7 @@ pub mod c09;
 pub mod c11;
 pub mod c12;
 pub mod c14;
+pub mod c15;
 pub mod c16;
 pub mod c17;
 pub mod clonefam;
@@ -28,6 +29,7 @@ pub const REGISTRY: &[(&str, PropFn)] = &[
     ("C12", c12::run),
     ("C13", clonefam::run_c13),
     ("C14", c14::run),
+    ("C15", c15::run),
     ("C16", c16::run),
     ("C17", c17::run),
 ];
